@@ -109,6 +109,14 @@ CLAIMS["C07"] = {
     "design_ref": "DESIGN.md §5 C07",
 }
 
+CLAIMS["C08"] = {
+    "technique": "static analysis: per-opcode region analysis of the interpreter's fetch cases (destructed-object scrub), must-pass-through of every unlink step on all paths of destruct_object, precondition dominance in move_object",
+    "text": "Decides the destruction/visibility mechanism on all paths: each interpreter case that copies a stored value to the stack substitutes 0 for destructed objects (other copying cases are enumerated and reviewed); "
+            "destruct_object cannot set O_DESTRUCTED without having passed the stack scrub, inventory unlink, name-hash and object-list removal, living-name, sentence, input_to, heart-beat steps and emptied its inventory, and disconnects afterwards; "
+            "move_object relinks only after the containment-cycle walk and the destination-alive test. The forest invariant over operation histories and re-validation after create/init/move hooks are not decided.",
+    "design_ref": "DESIGN.md §5 C08",
+}
+
 NOT_APPLICABLE = {
     "C18": "Line/trace correctness is a value-level question about run-length tables (encode in the code generator, decode in find_line); no clause of it is visible in the shape of the code, so static analysis gives no verdict (DESIGN.md §6).",
 }
